@@ -27,7 +27,8 @@ static const char* const TEMPLATES[] = {"\xE2\x88\x80\xCE\xBE\xE2\x88\x88%a \xCE
   "\xE2\x88\x80" "a,b\xE2\x88\x88%a a=b", "D{\xCE\xBE\xE2\x88\x88%a | \xCE\xBE\xE2\x88\x88%a}", "{\xCE\xBE\xE2\x88\x88%a | \xCE\xBE=%a}", "D{(a,b)\xE2\x88\x88%a | a=b}",
   "R{\xCE\xBE:=%a | \xCE\xBE\xE2\x88\xAA%a}", "R{\xCE\xBE:=%a | \xCE\xBE=\xCE\xBE | \xCE\xBE\\%a}", "I{a | a:\xE2\x88\x88%a; a\xE2\x88\x88%a}", "I{(a,b) | a:\xE2\x88\x88%a; b:=%a}",
   "[\xCE\xB1\xE2\x88\x88%a] \xCE\xB1\xE2\x88\xAA%a", "[\xCE\xB1\xE2\x88\x88\xE2\x84\xAC(R1), \xCE\xB2\xE2\x88\x88%a] \xCE\xB1\\{\xCE\xB2}", "\xE2\x88\x80\xCE\xBE\xE2\x88\x88%a \xE2\x88\x80\xCE\xBE\xE2\x88\x88%a \xCE\xBE=\xCE\xBE", "\xE2\x88\x80\xCE\xBE\xE2\x88\x88%a \xCE\xB6=\xCE\xBE",
-  "(\xE2\x88\x80\xCE\xBE\xE2\x88\x88%a \xCE\xBE=\xCE\xBE) & \xCE\xBE=%a", "[a\xE2\x88\x88" "D{b\xE2\x88\x88%a | b=b}, b\xE2\x88\x88%a] b", "[a\xE2\x88\x88%a, b\xE2\x88\x88\xE2\x84\xAC(a)] b"};
+  "(\xE2\x88\x80\xCE\xBE\xE2\x88\x88%a \xCE\xBE=\xCE\xBE) & \xCE\xBE=%a", "[a\xE2\x88\x88" "D{b\xE2\x88\x88%a | b=b}, b\xE2\x88\x88%a] b", "[a\xE2\x88\x88%a, b\xE2\x88\x88\xE2\x84\xAC(a)] b",
+  "I{1 | a:\xE2\x88\x88%a}", "I{%a | a:\xE2\x88\x88%a; b:=a}", "R{\xCE\xBE:=%a | {\xCE\xBE}}", "R{\xCE\xBE:=%a | \xCE\xBE\xE2\x88\xAA{\xCE\xBE}}"};
 #else                // three atoms, two operators
 static const char* const TEMPLATES[] = {"%a%o%a%o%a"};
 #endif
